@@ -2,6 +2,7 @@ package shard
 
 import (
 	"errors"
+	"fmt"
 
 	"github.com/nspcc-dev/neofs-node/pkg/local_object_storage/writecache"
 	apistatus "github.com/nspcc-dev/neofs-sdk-go/client/status"
@@ -34,8 +35,10 @@ func (s *Shard) deleteObjs(cnr cid.ID, addrs []oid.ID) error {
 	if hasWriteCache {
 		for _, addr := range addrs {
 			err := s.writeCache.Delete(oid.NewAddress(cnr, addr))
-			if err != nil && !errors.Is(err, apistatus.ErrObjectNotFound) && !errors.Is(err, writecache.ErrReadOnly) {
-				s.log.Warn("can't delete object from write cache", zap.Error(err))
+			if err != nil && !errors.Is(err, apistatus.ErrObjectNotFound) {
+				// reads are served from the write-cache first, the copy
+				// must not outlive the metadata
+				return fmt.Errorf("delete %s from write-cache: %w", addr, err)
 			}
 		}
 	}
